@@ -66,7 +66,7 @@ def cases(tier, salts):
                         cfg["lo"], cfg["hi"] = lo.tolist(), hi.tolist()
                     base.append(("convex/" + sname, cfg))
         # deterministic modes of the broad option bank (everything not documented as using random directions)
-        if salt == 0 or tier == "thorough":
+        if salt == 0 or (tier == "thorough" and salt == 1):
             for name, cfg in cfgs.broad_cfgs(salt=salt, exclude=("random",), probs=("nzr",), budgets=(30,), reg_budgets=(8,)):
                 base.append(("broad_" + name, cfg))
         for name, cfg in base:
